@@ -1,30 +1,30 @@
 SPECIFICATION Spec
 CONSTANTS
-  MaxOps = 4
+  MaxOps = 3
   MaxDepth = 2
-  MCKinds = {"vec", "arrayvec", "slice", "sliceref"}
-  Caps = {0, 1, 3}
+  MCKinds = {"vec", "arrayvec", "slice", "sliceref", "raw"}
+  Caps = {0, 3}
   Len0s = {0, 1}
-  Sizes = {0, 1, 2, 4}
-  ExtExact = {0, 4}
-  ExtNoHint = {2}
-  ExtUnder = {1, 4}
-  ExtOver = {1}
-  AdvSizes = {1}
-  ScrSizes = {1}
-  Avails = {0, 2}
-  CapAts = {0, 1, 5}
+  Sizes = {1}
+  ExtExact = {}
+  ExtNoHint = {}
+  ExtUnder = {}
+  ExtOver = {}
+  AdvSizes = {}
+  ScrSizes = {}
+  Avails = {2}
+  CapAts = {1}
   CapAts2 = {}
   RelCaps = {}
-  OverKinds = {"plus1", "total"}
-  TouchCaps = {1}
-  TouchOn = TRUE
+  OverKinds = {}
+  TouchCaps = {}
+  TouchOn = FALSE
   CloseInitOn = TRUE
-  UnwindOn = TRUE
+  UnwindOn = FALSE
   ViaSet = {}
   ViaCaps = {}
-  Readers = {}
-  RdAvails = {}
+  Readers = {"mutref", "bufreader", "empty", "repeat", "take", "short", "chain", "err"}
+  RdAvails = {2}
   RdCaps = {}
   UserWho = {}
   UserSizes = {}
